@@ -715,7 +715,7 @@ fn main() {
         qs.push(Q::Bool(2, vec![(Occur::Should, Q::All), (Occur::Should, Q::Term { f: 0, t: 3, freqs: true }), (Occur::Should, Q::Term { f: 0, t: 1, freqs: true })]));
         let n_pp = if c.name == "pp-focus" { if thorough { 120 } else { 40 } } else if c.docs.len() >= 9 { if thorough { 30 } else { 8 } } else { 2 };
         for _ in 0..n_pp { qs.push(qg.pp_tree()); }
-        let nq_here = if c.docs.len() > 150 && !thorough { 40 + n_pp } else { n_queries + n_pp };   // large segments cost more in Coq
+        let nq_here = if c.docs.len() > 150 && !thorough { 36 + n_pp } else if c.docs.len() < 2 && !thorough { 24 } else { n_queries + n_pp };   // large segments cost more in Coq
         while qs.len() < nq_here {
             let depth = *qg.rng.pick(&[0usize, 1, 2, 2, 3, 3, 4]);
             qs.push(qg.tree(depth));
@@ -772,7 +772,7 @@ fn main() {
 
     // ---------------- emit
     let header = format!("{}\nLocal Open Scope N_scope.\n{}", HEADER, headers);
-    let mut out = CaseOut::new(&args.out, &header, if thorough { 90 } else { 64 });
+    let mut out = CaseOut::new(&args.out, &header, if thorough { 120 } else { 96 });   // every shard re-parses the corpora: few, larger shards
     for (k, v) in stats { out.count(&k, v); }
     for (ok, d) in bulk { out.spec_checked(ok, d); }
 
